@@ -302,3 +302,15 @@ Proof.
   destruct (c =? cLF)%N; [reflexivity|]. unfold linecol. rewrite firstn_app.
   replace (off - length input)%nat with O by lia. cbn [firstn]. rewrite app_nil_r. reflexivity.
 Qed.
+
+(* ---------------------------------------------------------------- C02: shape of the result *)
+Lemma Parse_reject_shape input ss es o : Parse input = (ss, es, o) ->
+  (es <> [] -> ss = []) /\ (es = [] \/ ss = []).
+Proof.
+  unfold Parse. cbv zeta.
+  destruct (parse_loop (parse_fuel input) (parse_fuel input) (newParser input) []) as [ss0 p].
+  match goal with |- context [errs (lx ?q)] => destruct (errs (lx q)) as [|e es'] end;
+    intros Q; injection Q as <- <- <-.
+  - split; [congruence|left; reflexivity].
+  - split; [reflexivity|right; reflexivity].
+Qed.
